@@ -286,3 +286,79 @@ Definition sres_json (o : option sres) : json :=
 Definition c17_shared_case := (list sroute * list sreq)%type.
 Definition predict_C17_shared (c : c17_shared_case) : json :=
   JObj [(s "tags", JArr []); (s "steps", JArr (map sres_json (run_shared (fst c) (snd c))))].
+
+(* ================================================================================================
+   Registration HISTORIES (seeded change C17g).  Added below; nothing above changes.
+     server : internal/httpgen/generator.go:784-801   getDefaultConfiguration() allocates a NEW
+              serverConfiguration{mux: http.DefaultServeMux, withMux: false} on every call;
+              getConfiguration(options...) applies the options of THIS Register call to it, in order
+              internal/httpgen/generator.go:803-820   WithMux writes c.mux / c.withMux, WithErrorHandler
+              writes c.errorHandler — on the configuration they are handed, nothing else
+              Register<Service>Server mounts every route of the service on config.mux and hands
+              config.errorHandler to the route's closures
+   The world after a history of Register calls is the list of mounted services; registration k's entry is
+   computed from ITS OWN options; a request is served by the entry mounted under (mux, service).
+   ================================================================================================ *)
+Inductive sopt := OMux (m : str) | OHook (id : str) (status : Z).
+(* sc_mux = "" : http.DefaultServeMux *)
+Record scfg := { sc_mux : str; sc_hook : option (str * Z) }.
+Definition default_scfg : scfg := {| sc_mux := []; sc_hook := None |}.
+Definition apply_sopt (c : scfg) (o : sopt) : scfg :=
+  match o with
+  | OMux m => {| sc_mux := m; sc_hook := sc_hook c |}
+  | OHook id st => {| sc_mux := sc_mux c; sc_hook := Some (id, st) |}
+  end.
+Definition get_configuration (opts : list sopt) : scfg := fold_left apply_sopt opts default_scfg.
+
+Record mounted := { mt_reg : nat; mt_mux : str; mt_svc : str; mt_hook : option (str * Z) }.
+Definition reg_call := (str * list sopt)%type.
+Definition mount (k : nat) (r : reg_call) : mounted :=
+  let c := get_configuration (snd r) in
+  {| mt_reg := k; mt_mux := sc_mux c; mt_svc := fst r; mt_hook := sc_hook c |}.
+Fixpoint register_all (k : nat) (regs : list reg_call) : list mounted :=
+  match regs with
+  | [] => []
+  | r :: t => mount k r :: register_all (S k) t
+  end.
+
+Definition mkey (m : mounted) : str * str := (mt_mux m, mt_svc m).
+Definition key_eqb (a b : str * str) : bool := str_eqb (fst a) (fst b) && str_eqb (snd a) (snd b).
+Definition find_mounted (t : list mounted) (k : str * str) : option mounted :=
+  find (fun m => key_eqb (mkey m) k) t.
+
+(* a request: the mux it is served by, the service whose route it names, whether the handler fails *)
+Record rreq := { rq_mux : str; rq_svc : str; rq_fails : bool }.
+Definition rq_key (q : rreq) : str * str := (rq_mux q, rq_svc q).
+(* (status, registration whose implementation was called, error handler that ran) *)
+Definition answer_reg (m : option mounted) (fails : bool) : Z * option nat * str :=
+  match m with
+  | None => (404%Z, None, [])
+  | Some m =>
+      if fails then
+        match mt_hook m with
+        | Some (id, st) => (st, Some (mt_reg m), id)
+        | None => (500%Z, Some (mt_reg m), [])
+        end
+      else (200%Z, Some (mt_reg m), [])
+  end.
+Definition serve_reg (t : list mounted) (q : rreq) : Z * option nat * str :=
+  answer_reg (find_mounted t (rq_key q)) (rq_fails q).
+
+Fixpoint has_dup_key (l : list (str * str)) : bool :=
+  match l with
+  | [] => false
+  | k :: r => existsb (key_eqb k) r || has_dup_key r
+  end.
+
+Definition reg_answer_json (a : Z * option nat * str) : json :=
+  let '(st, h, hook) := a in
+  JObj [(s "status", JNum st);
+        (s "handler", JNum (match h with Some k => Z.of_nat k | None => (-1)%Z end));
+        (s "hook", JStr hook)].
+
+Definition c17_reg_case := (list reg_call * list rreq)%type.
+Definition predict_C17_reg (c : c17_reg_case) : json :=
+  let t := register_all 0 (fst c) in
+  if has_dup_key (map mkey t)
+  then JObj [(s "unmodelled", JStr (s "one service registered twice on one mux: net/http panics on the second pattern"))]
+  else JObj [(s "tags", JArr []); (s "steps", JArr (map (fun q => reg_answer_json (serve_reg t q)) (snd c)))].
